@@ -193,7 +193,10 @@ def run(ctx):
     # R19.3 each gate-able severity flag is part of the key (unless the whole mask is)
     ctx.rule('R19.3', 'each of the five optional severities is tested in CppCheck::calculateHash (or the whole mask is '
                       'written through intValue())')
-    body = F.body(calc)['body']
+    # the key text is composed in calculateHash and in the helpers it calls in its own file (an "extract function" refactoring keeps the rule's view)
+    helpers = [fn for k, (fn, _, _) in reach.items() if fn['file'] == calc['file'] and F.body(fn) is not None and F.key(fn) != F.key(calc)]
+    body = {'k': 'CompoundStmt', 'l': calc['line'], 'c': [F.body(calc)['body']] + [F.body(h)['body'] for h in sorted(helpers, key=lambda h: h['line'])]}
+    ctx.counts['key-composing functions'] = 1 + len(helpers)
     enums = {x['n'] for x in walk(body) if x.get('k') == 'DeclRefExpr' and x.get('dk') == 'EnumConstant'}
     whole = any(x.get('fn', '').endswith('::intValue') and any(y.get('n') == 'Settings::severity' for y in walk(x))
                 for x in walk(body) if x.get('k') == 'CXXMemberCallExpr')
@@ -262,6 +265,32 @@ def run(ctx):
                    '%s:%s' % (calc['file'], x['l']))
         seen_m[lit] = x
     ctx.counts['flag tests in calculateHash'] = nflags
+    r19_6(ctx, body, calc)
+
+
+def r19_6(ctx, body, calc):
+    """R19.6  nothing written into the key text is overwritten: a std::ostringstream / std::stringstream constructed from a string starts writing at
+    offset 0 unless it is opened with std::ios_base::ate / app; everything the later `<<` writes replaces the beginning of the initial text, so the options
+    encoded there are not part of the key."""
+    from .common.facts import strip_all, call_args
+    ctx.rule('R19.6', 'no string stream in the key composition is constructed from initial text and then written from offset 0')
+    n = 0
+    for x in walk(body):
+        if x.get('k') == 'VarDecl' and x.get('init') is not None and any(t in (x.get('t') or '') for t in ('ostringstream', 'stringstream')):
+            n += 1
+            ctor = [y for y in walk(x['init']) if y.get('k') == 'CXXConstructExpr' and any(t in (y.get('cls') or y.get('t') or '') for t in ('ostringstream', 'stringstream'))]
+            if not ctor:
+                continue
+            args = [a for a in call_args(ctor[0]) if strip_all(a).get('k') != 'DefaultArg']
+            has_text = any('string' in (strip_all(a).get('t') or '') or 'char' in (strip_all(a).get('t') or '') for a in args)
+            ate = any(y.get('k') == 'DeclRefExpr' and (y.get('n') or '').split('::')[-1] in ('ate', 'app') for a in args for y in walk(a))
+            written = any(y.get('k') == 'CXXOperatorCallExpr' and y.get('op') == '<<' and any(z.get('k') == 'DeclRefExpr' and z.get('di') == x.get('di') for z in walk(y)) for y in walk(body)) or \
+                any(y.get('k') in ('CallExpr', 'CXXMemberCallExpr') and any(strip_all(a).get('k') == 'DeclRefExpr' and strip_all(a).get('di') == x.get('di') for a in call_args(y)) for y in walk(body))
+            ok = not (has_text and not ate and written)
+            ctx.ob('R19.6', 'stream-init:%s' % x.get('n'), ok, ('string stream %s starts empty or appends' % x.get('n')) if ok else
+                   ('the string stream %s (line %s) is constructed from initial text without std::ios_base::ate and then written: the write position starts at 0, so the later output '
+                    'overwrites the beginning of the option text and those options no longer influence the cache key' % (x.get('n'), x['l'])), '%s:%s' % (calc['file'], x['l']))
+    ctx.floor('R19.6 string streams in the key composition', n, 1)
 
 
 def r19_5(ctx):
